@@ -3,3 +3,4 @@ pub mod c14;
 pub mod c16;
 pub mod structs;
 pub mod c05;
+pub mod c02;
